@@ -22,7 +22,7 @@ VERIF = os.path.dirname(os.path.dirname(os.path.abspath(__file__)))
 PY = '/venv/bin/python'
 
 
-def sh(cmd, cwd=None, timeout=1200, env=None):
+def sh(cmd, cwd=None, timeout=600, env=None):
     p = subprocess.run(cmd, shell=True, cwd=cwd, capture_output=True,
                        text=True, timeout=timeout, env=env)
     out = '\n'.join(l for l in (p.stdout + p.stderr).splitlines()
